@@ -158,7 +158,7 @@ def run_linear(c, rec):
         return
     refused, built = refuses(lambda: build(c))
     if refused:
-        rec.count("construction_refused")
+        raise Violation(f"building the Bayesian problem failed: {type(built).__name__}: {built}")
         return
     BP, model, Se, Sx, mu = built
     b = A(c["data"])
